@@ -155,6 +155,18 @@ CHECKS = {
     technique="Lean 4 theorems (omega on clamped indices, convexity by nlinarith, list lemma for the level search); differential correspondence",
     design="3/C15",
     note="xy2ll/ll2xy (LADiM's bilin_inv) are exercised only; end-to-end boundary-exit runs are part of the thorough tier when available."),
+ "C06": dict(
+    text="Proof (state-machine refinement to lerp): for strictly increasing forcing steps and either initialisation branch, after "
+         "processing steps 0..T the served velocity equals the linear interpolation of the two enclosing frames (invariant by induction), "
+         "update with the catch-up loop over ANY increasing schedule equals the consecutive run (velocity_any_schedule), scalars equal the "
+         "frame at coinciding steps (t > 0), are held constant between frames and lie between the two frames before the first frame; "
+         "aligned dt gives exact frame steps. Proved counter-witnesses for the behaviours before the fix: commits (late start, gap, "
+         "prestep division) and for the KNOWN FINDINGS (scalar at t = 0 holds the next frame - snapshot-pinned; dt not dividing frame "
+         "offsets - design limitation). Tie: bit-exact correspondence of the real Forcing on synthetic float64 ROMS files (1..3 files) "
+         "over consecutive / late / gapped schedules; time-interpolation oracle.",
+    technique="Lean 4 theorems (invariant by induction over steps, schedule-independence of the catch-up loop, decide +kernel witnesses); bit-exact differential correspondence",
+    design="3/C06",
+    note="Exact arithmetic: the accumulated increments U += dU equal the closed-form lerp only up to rounding (oracle tolerance 1e-9); float32 forcing files are not compared bit-exactly."),
 }
 
 def main():
